@@ -45,7 +45,7 @@ def listdoc(draw, depth=2, max_size=5):
     return [copy.deepcopy(pool[draw(st.integers(0, len(pool) - 1))]) for _ in range(n)]
 
 
-KEYS = ["a", "b", "c", "k", "key with space", "é", "2019", "0"]
+KEYS = ["a", "b", "c", "k", "key with space", "é", "2019", "0", "3d_view"]
 
 
 def objdoc(depth=2, max_size=4):
